@@ -194,6 +194,13 @@ class RecordingDul(object):
     def __init__(self, lazy=False):
         self.sent = []
         self.lazy = lazy
+        self.inbox = []          # what receive() hands to the association next: (message, context id) or a PDU
+
+    def receive(self, timeout=None):
+        from pynetdicom2 import exceptions
+        if not self.inbox:
+            raise exceptions.DCMTimeoutError()
+        return self.inbox.pop(0)
 
     def send(self, primitive):
         if getattr(primitive, 'pdu_type', None) == 4:
